@@ -5,12 +5,16 @@
 //	admit = (insecure ∨ (server certificate chains to the client's CA ∧ is within its validity ∧ matches
 //	         the upstream host as the user wrote it)) ∧ (¬requireClientCert ∨ client certificate signed by the server's CA)
 //	UDP shared secret: admit = (secret_client == secret_server), compared as the byte strings the two users wrote
+//	UDP endpoint with a shared secret AND certificates ("udp+secret+starttls" in the certificate matrix): admit = both
+//	of the above (the secret replaces neither the verification of the server certificate nor requireClientCert)
 //
 // Trust anchors: "the configured CA" / "its CA" is the CA of the configuration entry, given inline or by file. An
 // endpoint WITHOUT a configured CA verifies against the machine's trust store (crypto/tls's documented meaning
 // of an empty pool; the harness points the store at the foreign CA): a peer that presents no certificate, or one
 // of the run's own CA (never in that store), is still not acceptable; whether a peer chaining to the machine's store
-// is admitted is not decided by the property ("unspecified": observed and counted, never a verdict).
+// is admitted is not decided by the property ("unspecified": observed and counted, never a verdict). A configured CA
+// may be a BUNDLE (the option is "CA certificate(s)"): CA one together with authorities that issued nothing, CA one
+// first / in the middle / last; a peer chaining to CA one chains to the configured CA wherever it stands in the bundle.
 //
 // Observed: a logical connection is opened through the real client command (which forces
 // Upstreams.Connect against the real server command); "admitted" = the channel's recording target
@@ -45,21 +49,24 @@ import (
 
 type c05Case struct {
 	Kind       string `json:"kind"`    // "tls" or "secret"
-	Carrier    string `json:"carrier"` // tcp+tls wss tcp+starttls ws+starttls udp+starttls dns+starttls | udp (secret, no StartTLS)
+	Carrier    string `json:"carrier"` // tcp+tls wss tcp+starttls ws+starttls udp+starttls dns+starttls udp+secret+starttls | udp (secret, no StartTLS)
 	Cert       string `json:"server_cert"`
 	Insecure   bool   `json:"client_insecure"`
 	ClientCert string `json:"client_cert"` // none own foreign foreign-forced
 	Require    bool   `json:"require_client_cert"`
 	Host       string `json:"upstream_host"` // localhost 127.0.0.1 domain (dns: the tunnel domain)
-	SrvSecret  string `json:"server_secret,omitempty"`
-	CliSecret  string `json:"client_secret,omitempty"`
-	SecretRel  string `json:"secret_relation,omitempty"` // equal different missing-on-client missing-on-server
+	// kind "secret", and kind "tls" on the carrier udp+secret+starttls (there: relation equal or different only)
+	SrvSecret string `json:"server_secret,omitempty"`
+	CliSecret string `json:"client_secret,omitempty"`
+	SecretRel string `json:"secret_relation,omitempty"` // equal different missing-on-client missing-on-server
 	// Preceded: the upstream list has another entry first, of the same kind but written with the OTHER host
 	// spelling and pointing at a port nobody listens on; the verdict depends on the second entry only
 	// (state left behind by the failed first attempt must not change what is verified for the second)
 	Preceded bool `json:"preceded_by_refused_upstream_with_other_host,omitempty"`
 	// Trust anchors of the two configuration entries: "" = CA one given inline (caCertificate), "file" = CA one given
-	// by file (caCertificateFile), "none" = no CA configured at all (the machine's trust store decides)
+	// by file (caCertificateFile), "none" = no CA configured at all (the machine's trust store decides),
+	// "bundle-first" / "bundle-middle" / "bundle-last" = several CA certificates given inline, CA one at that place among
+	// authorities that issued nothing, "file-bundle-..." = the same bundle given by file
 	ServerCA string `json:"server_ca,omitempty"`
 	ClientCA string `json:"client_ca,omitempty"`
 	// shared-secret cases: which near miss of the server's secret the client holds, and how the client's address
@@ -71,7 +78,11 @@ type c05Case struct {
 // unspecified: the property does not say whether this aspect admits or refuses
 const unspecified = "?"
 
-var carriers = []string{"tcp+tls", "wss", "tcp+starttls", "ws+starttls", "udp+starttls", "dns+starttls"}
+// secretCarrier: StartTLS over a UDP endpoint that is protected by a shared secret as well (both ends hold the same
+// secret unless the case says otherwise); the certificate matrix applies to it like to every other carrier.
+const secretCarrier = "udp+secret+starttls"
+
+var carriers = []string{"tcp+tls", "wss", "tcp+starttls", "ws+starttls", "udp+starttls", "dns+starttls", secretCarrier}
 var serverCerts = []string{"Good", "GoodDNS", "IPOnly", "WrongHost", "Untrusted", "Expired"}
 
 // Client certificates: "foreign" is configured in the real client like any certificate (Go's TLS client
@@ -173,8 +184,12 @@ func model(c *c05Case) (admit bool, class string, specified bool) {
 	cr, kr := certReason(c), clientReason(c)
 	certBad := !c.Insecure && cr != "" && cr != unspecified
 	keyBad := kr != "" && kr != unspecified
-	if certBad || keyBad {
+	secBad := c.SrvSecret != c.CliSecret // (neither the insecure flag nor a client certificate stands in for the secret)
+	if certBad || keyBad || secBad {
 		var parts []string
+		if secBad {
+			parts = append(parts, "secret="+c.SecretRel)
+		}
 		if certBad {
 			parts = append(parts, "cert="+cr+anchorSuffix("client", c.ClientCA))
 		}
@@ -248,15 +263,69 @@ func caFile() (string, error) {
 	return caFilePath, caFileErr
 }
 
-// anchors applies a trust-anchor choice to the generic part of a certificate configuration
-func anchors(choice string, cfg *cert.Config) {
-	switch choice {
-	case "none":
-		cfg.CaCertificate, cfg.CaCertificateFile = "", ""
-	case "file":
-		cfg.CaCertificate = ""
-		cfg.CaCertificateFile, _ = caFile()
+// bundlePEM: CA one at the named place among certificate authorities that issued nothing ("" for an unknown place)
+func bundlePEM(place string) string {
+	x := e2e.C05ExtraCAs()
+	one := e2e.GetC05PKI().CA1
+	switch place {
+	case "first":
+		return one + x[0]
+	case "middle":
+		return x[0] + one + x[1]
+	case "last":
+		return x[0] + one
 	}
+	return ""
+}
+
+var bundleFileMu sync.Mutex
+var bundleFiles = map[string]string{}
+
+// bundleFile: the bundle as a file in the child's private working directory (caCertificateFile)
+func bundleFile(place string) (string, error) {
+	bundleFileMu.Lock()
+	defer bundleFileMu.Unlock()
+	if f, ok := bundleFiles[place]; ok {
+		return f, nil
+	}
+	pem := bundlePEM(place)
+	if pem == "" {
+		return "", fmt.Errorf("unknown bundle %q", place)
+	}
+	wd, err := os.Getwd()
+	if err != nil {
+		return "", err
+	}
+	f := filepath.Join(wd, fmt.Sprintf("c05-ca-bundle-%s-%d.pem", place, os.Getpid()))
+	if err := os.WriteFile(f, []byte(pem), 0644); err != nil {
+		return "", err
+	}
+	bundleFiles[place] = f
+	return f, nil
+}
+
+// anchors applies a trust-anchor choice to the generic part of a certificate configuration
+func anchors(choice string, cfg *cert.Config) error {
+	var err error
+	switch {
+	case choice == "":
+	case choice == "none":
+		cfg.CaCertificate, cfg.CaCertificateFile = "", ""
+	case choice == "file":
+		cfg.CaCertificate = ""
+		cfg.CaCertificateFile, err = caFile()
+	case strings.HasPrefix(choice, "bundle-"):
+		cfg.CaCertificateFile = ""
+		if cfg.CaCertificate = bundlePEM(strings.TrimPrefix(choice, "bundle-")); cfg.CaCertificate == "" {
+			err = fmt.Errorf("unknown trust-anchor choice %q", choice)
+		}
+	case strings.HasPrefix(choice, "file-bundle-"):
+		cfg.CaCertificate = ""
+		cfg.CaCertificateFile, err = bundleFile(strings.TrimPrefix(choice, "file-bundle-"))
+	default:
+		err = fmt.Errorf("unknown trust-anchor choice %q", choice)
+	}
+	return err
 }
 
 // parseAddress turns the address string into an address the way the named configuration path does
@@ -281,9 +350,17 @@ func start(c *c05Case) (*e2e.Pair, error) {
 		Carrier: c.Carrier, ServerCert: &sc, ServerCA: pk.CA1, ClientCA: pk.CA1, ClientInsecure: c.Insecure,
 		RequireClient: c.Require, StrictVerify: true, Domain: e2e.C05Domain, Tag: "c",
 	}
-	if c.ServerCA == "file" || c.ClientCA == "file" {
-		if _, err := caFile(); err != nil {
-			return nil, fmt.Errorf("harness: CA file: %v", err)
+	if c.Kind == "tls" && c.Carrier == secretCarrier {
+		if c.SrvSecret == "" || c.CliSecret == "" {
+			return nil, fmt.Errorf("harness: %s case without secrets", secretCarrier)
+		}
+		o.Carrier, o.Secret, o.ClientSecret = "udp+starttls", c.SrvSecret, c.CliSecret
+	}
+	// (a trial application: whatever cannot be written or named fails here, not inside the pair)
+	var trial cert.Config
+	for _, ch := range []string{c.ServerCA, c.ClientCA} {
+		if err := anchors(ch, &trial); err != nil {
+			return nil, fmt.Errorf("harness: trust anchors: %v", err)
 		}
 	}
 	o.ServerCfgEdit = func(s *cert.ServerConfig) { anchors(c.ServerCA, &s.Config) }
@@ -492,6 +569,10 @@ func stallClass(c *c05Case, admit bool, class string) string {
 	if !admit {
 		kind = "reject:" + strings.SplitN(class, "=", 2)[0]
 	}
+	if c.Kind == "tls" && c.Carrier == secretCarrier {
+		// (not the class of the shared-secret cases proper, which carry the same label: neither may use up the other's two stalls)
+		return label(c) + "|matrix|" + kind
+	}
 	return label(c) + "|" + kind
 }
 
@@ -509,6 +590,10 @@ func runCase(rec *vcommon.Rec, st *runState, c *c05Case) {
 	var info map[string]interface{}
 	if err != nil {
 		info = map[string]interface{}{"setup": err.Error()}
+		if strings.HasPrefix(err.Error(), "harness:") {
+			rec.Inconclusive("the harness could not prepare the case: "+err.Error(), c)
+			return
+		}
 		if strings.Contains(err.Error(), "address already in use") {
 			rec.Inconclusive("port collision while starting the pair", c)
 			return
@@ -541,6 +626,9 @@ func runCase(rec *vcommon.Rec, st *runState, c *c05Case) {
 		rec.Seen("pair(carrier,host)", lab+"|"+c.Host)
 		rec.Seen("pair(server_cert,insecure)", fmt.Sprintf("%s|%v", c.Cert, c.Insecure))
 		rec.Seen("pair(server_cert,host)", c.Cert+"|"+c.Host)
+		if c.Carrier == secretCarrier {
+			rec.Seen("secret_with_certificates(relation,server_cert,insecure,client_cert,require)", fmt.Sprintf("%s|%s|%v|%s|%v", c.SecretRel, c.Cert, c.Insecure, c.ClientCert, c.Require))
+		}
 		if c.ServerCA != "" || c.ClientCA != "" {
 			rec.Seen("tuple(carrier,server_ca,client_cert,require)", fmt.Sprintf("%s|%s|%s|%v", lab, c.ServerCA, c.ClientCert, c.Require))
 			rec.Seen("tuple(carrier,client_ca,server_cert,insecure)", fmt.Sprintf("%s|%s|%s|%v", lab, c.ClientCA, c.Cert, c.Insecure))
@@ -631,6 +719,11 @@ func coreTLS() []*c05Case {
 		add("Good", false, "foreign-forced", true, hs[0])
 		add("Good", false, "own", true, hs[0])
 		add("Untrusted", true, "none", false, hs[0])
+		if car == secretCarrier {
+			// a different secret is not made up for by the insecure flag or by an acceptable client certificate
+			out = append(out, &c05Case{Kind: "tls", Carrier: car, Cert: "Good", Insecure: true, ClientCert: "none", Host: hs[0], SecretRel: "different"})
+			out = append(out, &c05Case{Kind: "tls", Carrier: car, Cert: "Good", ClientCert: "own", Require: true, Host: hs[0], SecretRel: "different"})
+		}
 		if !strings.HasPrefix(car, "dns") && !strings.HasPrefix(car, "udp") { // (a host-less udp:// URL has no usable remote address at all)
 			add("Good", false, "none", false, "nohost")
 			add("Untrusted", false, "none", false, "nohost")
@@ -703,6 +796,28 @@ func quickTLS(seed int64, extra int) []*c05Case {
 		take(best) // gain 0 once every pair is covered: the shuffled order makes it a seeded random pick
 	}
 	return out
+}
+
+// fillSecrets gives every case of the certificate matrix on the secret-protected UDP carrier its two secrets: one
+// seeded mixed-case secret for the run, held by both ends, or (relation "different") another one on the client.
+func fillSecrets(list []*c05Case, seed int64) {
+	rng := vcommon.NewRand(seed, "c05/secret-carrier")
+	base := randomSecret(rng, 12+rng.Intn(9))
+	other := randomSecret(rng, len(base))
+	for other == base {
+		other = randomSecret(rng, len(base))
+	}
+	for _, c := range list {
+		if c.Kind != "tls" || c.Carrier != secretCarrier || c.SrvSecret != "" {
+			continue
+		}
+		c.SrvSecret, c.CliSecret = base, base
+		if c.SecretRel == "different" {
+			c.CliSecret = other
+		} else {
+			c.SecretRel = "equal"
+		}
+	}
 }
 
 // secretAlphabet: characters a URL carries literally in its userinfo part (RFC 3986 "unreserved")
@@ -805,7 +920,8 @@ func secretCases(seed int64) []*c05Case {
 
 // ---- trust anchors: CA given by file, or not given at all -----------------------------------------
 
-var anchorCombos = [][2]string{{"none", ""}, {"file", ""}, {"", "none"}, {"", "file"}, {"none", "none"}, {"file", "file"}}
+var anchorCombos = [][2]string{{"none", ""}, {"file", ""}, {"", "none"}, {"", "file"}, {"none", "none"}, {"file", "file"},
+	{"bundle-last", ""}, {"", "bundle-last"}, {"bundle-first", "bundle-first"}, {"file-bundle-middle", "file-bundle-middle"}}
 
 // anchorAll: (server CA, client CA) not both default x server certificate {Good, Untrusted} x insecure x client
 // certificate x require, on the first host spelling of every carrier; configurations the property does not decide
@@ -854,6 +970,13 @@ func anchorCore() []*c05Case {
 		add("file", "", "Good", false, "foreign-forced", true)
 		add("", "file", "Good", false, "none", false)
 		add("", "file", "Untrusted", false, "none", false)
+		// a bundle of CA certificates: CA one is the configured CA wherever it stands, the others let nobody else in
+		add("", "bundle-last", "Good", false, "none", false)
+		add("", "bundle-last", "Untrusted", false, "none", false)
+		add("bundle-last", "", "Good", false, "own", true)
+		add("bundle-last", "", "Good", false, "foreign-forced", true)
+		add("bundle-first", "bundle-first", "Good", false, "own", true)
+		add("file-bundle-middle", "file-bundle-middle", "Good", false, "own", true)
 	}
 	return out
 }
@@ -912,7 +1035,7 @@ func TestVerifC05(t *testing.T) {
 	if rec.Thorough() {
 		tls = allTLS()
 		for _, c := range coreTLS() {
-			if c.Preceded || c.Host == "nohost" {
+			if c.Preceded || c.Host == "nohost" || c.SecretRel == "different" {
 				tls = append(tls, c)
 			}
 		}
@@ -921,6 +1044,7 @@ func TestVerifC05(t *testing.T) {
 		tls = quickTLS(rec.Seed(), 100)
 		tls = append(tls, quickAnchors(rec.Seed(), 30)...)
 	}
+	fillSecrets(tls, rec.Seed())
 	if v := os.Getenv("VERIF_CARRIERS"); v != "" {
 		var f []*c05Case
 		for _, c := range tls {
@@ -939,7 +1063,9 @@ func TestVerifC05(t *testing.T) {
 		plain = append(plain, secretCases(rec.Seed())...)
 	}
 	for _, c := range tls {
-		if strings.HasPrefix(c.Carrier, "dns") {
+		// (a different secret on the secret-protected carrier costs a whole stall window, like the shared-secret cases
+		// that are expected to hang; the DNS shards finish first in the quick tier, so the two cases go there)
+		if strings.HasPrefix(c.Carrier, "dns") || (c.Kind == "tls" && c.SrvSecret != c.CliSecret) {
 			dns = append(dns, c)
 		} else {
 			plain = append(plain, c)
